@@ -774,3 +774,54 @@ pub async fn do_request(ex: &mut Exchange<'_>, timed_ms: Option<u16>, delay_afte
     }
     ans
 }
+
+/// SubscribeRequest; collects the priming chunks and the SubscribeResponse.
+pub async fn do_subscribe(ex: &mut Exchange<'_>, req: &[u8]) -> Answer {
+    let mut ans = Answer::default();
+    let r: Result<(), Error> = async {
+        ex.send(MessageMeta::new(PROTO_IM, OP_SUBSCRIBE_REQ, true), req).await?;
+        loop {
+            if ans.messages.len() >= MAX_CHUNKS {
+                ans.error = Some("endless priming report".into());
+                break;
+            }
+            let (op, payload) = {
+                let rx = ex.recv().await?;
+                (rx.meta().proto_opcode, rx.payload().to_vec())
+            };
+            ans.messages.push((op, payload.clone()));
+            match op {
+                OP_REPORT_DATA => match decode_report(&payload) {
+                    Ok((items, _, _, _)) => {
+                        ans.items.extend(items);
+                        ex.send(MessageMeta::new(PROTO_IM, OP_STATUS, true), &status_response(0)).await?;
+                    }
+                    Err(e) => {
+                        ans.error = Some(format!("undecodable report: {}", e));
+                        break;
+                    }
+                },
+                OP_SUBSCRIBE_RESP => {
+                    ex.acknowledge().await?;
+                    break;
+                }
+                OP_STATUS => {
+                    ans.status_response = Some(rs_matter::tlv::TLVElement::new(&payload).structure().ok().and_then(|s| s.find_ctx(0).ok()).and_then(|x| x.u16().ok()).unwrap_or(0xffff));
+                    ex.acknowledge().await?;
+                    break;
+                }
+                other => {
+                    ans.error = Some(format!("unexpected opcode {}", other));
+                    break;
+                }
+            }
+        }
+        Ok(())
+    }
+    .await;
+    if let Err(e) = r {
+        ans.error = Some(format!("{:?}", e.code()));
+    }
+    ans
+}
+
